@@ -99,7 +99,8 @@ Definition corr_eq (c : qcase) : bool :=
   match feval (q_a c), feval (q_b c) with
   | Ok f, Ok g => Bool.eqb (q_eq c) (feq f g) && Bool.eqb (q_ne c) (fne f g) &&
                   zlist_eqb (q_ha c) (fhash_items f) && zlist_eqb (q_hb c) (fhash_items g) &&
-                  Bool.eqb (q_heq c) (zlist_eqb (fhash_items f) (fhash_items g))
+                  implb (zlist_eqb (fhash_items f) (fhash_items g)) (q_heq c)   (* equal tuples hash equally;
+                     different tuples may collide: hash(-1) = hash(-2) in CPython *)
   | _, _ => true
   end.
 Definition holds_eq (c : qcase) : bool :=
